@@ -23,7 +23,7 @@ WORK = os.path.join(ROOT, "work")
 EVID = os.path.join(ROOT, "evidence")
 ALLOWED_AXIOMS = {"propext", "Classical.choice", "Quot.sound"}
 # generators whose scenarios are independent are run as parallel shards (VERIF_SHARD=i/n) and merged
-SHARDED = {"C01": 8, "C02": 8, "C03": 8, "C04": 10, "C05": 8, "C06": 14, "C07": 8, "C08": 8, "C09": 8, "C10": 8, "C11": 12, "C12": 8, "C16": 8, "C19": 3}
+SHARDED = {"C01": 8, "C02": 8, "C03": 8, "C04": 10, "C05": 8, "C06": 14, "C07": 8, "C08": 8, "C09": 8, "C10": 8, "C11": 12, "C12": 8, "C16": 8, "C19": 3, "C20": 16}
 ENV = dict(os.environ, CARGO_NET_OFFLINE="true")
 
 
